@@ -700,6 +700,62 @@ Proof.
     destruct (ul (sg s)); unfold flip_tile_coord in Hoh'; replace (lvl <? 0) with false in Hoh' by lia; discriminate.
 Qed.
 
+(* ---- WMS-C: the advertised-served statement needs only the Origin condition of tms_address_exact_iff (the lower-left
+   corner of the TileSet BoundingBox is the south-west corner of tile (0,0) of that level), not extent = grid bbox *)
+Lemma wmsc_advertised_served_origin_l s i j l :
+  wf (sg s) -> decreasing_res (sg s) -> 0 < sf_d (sg s) <= sf_n (sg s) -> 0 < shr_d (sg s) <= shr_n (sg s) ->
+  tms_origin_ok s l ->
+  limit_tile (sg s) i j l = Some (i, j, l) -> 10 <= res_at (sg s) l ->
+  wmsc_get_map (sg s) (wmsc_client_rect s (res_at (sg s) l) i j) (tw (sg s)) (th (sg s)) =
+  WLoaded (flip_for (sg s) OSW (i, j, l)).
+Proof.
+  intros Hwf Hd Hsf Hshr Ho Hl H10.
+  assert (Hrect : wmsc_client_rect s (res_at (sg s) l) i j = tile_bbox_c (sg s) (flip_for (sg s) OSW (i, j, l))).
+  { unfold tms_origin_ok in Ho. unfold wmsc_client_rect.
+    destruct (s_extent s) as [[[ex0 ey0] ex1] ey1]. destruct Ho as [-> ->].
+    unfold flip_for, tile_bbox_c, flip_tile_coord, tile_bbox, misalign.
+    destruct (ul (sg s)) eqn:U; destruct (grid_size (sg s) l) as [nx ny]; cbn [snd]; rewrite ?U; apply bbox_eq; ring. }
+  rewrite Hrect. pose proof (flip_for_valid (sg s) OSW i j l Hl) as Hv.
+  pose proof (flip_for_level (sg s) OSW i j l) as Hlv.
+  destruct (flip_for (sg s) OSW (i, j, l)) as [[x' y'] l']. cbn [snd] in Hlv. subst l'.
+  cbn [tile_bbox_c]. apply wmsc_tile_rect_served; assumption.
+Qed.
+
+(* converse: if the rectangle derived from the TileSet for (i, j) is answered with the tile TMS serves for (i, j), the
+   Origin condition holds up to the 1/10 pixel guard - stated exactly: the two rectangles differ by less than a tenth of a
+   pixel in every edge *)
+Lemma wmsc_served_implies_close s i j l :
+  wmsc_get_map (sg s) (wmsc_client_rect s (res_at (sg s) l) i j) (tw (sg s)) (th (sg s)) =
+  WLoaded (flip_for (sg s) OSW (i, j, l)) ->
+  bbox_equals_tenth (wmsc_client_rect s (res_at (sg s) l) i j) (tile_bbox_c (sg s) (flip_for (sg s) OSW (i, j, l)))
+                    (tw (sg s)) (th (sg s)) = true.
+Proof. intros H. apply wmsc_exact_or_refused_l in H. tauto. Qed.
+
+(* ---- TileServiceGrid.internal_level (demo): the level it names is the level TMS requests are served from, except on
+   global-profile sqrt2 grids, where it is two grid levels further down (4 instead of 2 for order 0) *)
+Lemma internal_level_consistent_l s z :
+  skip_first s && skip_odd s = false -> internal_level s z = public_level s true z.
+Proof.
+  unfold internal_level, public_level. destruct (skip_first s), (skip_odd s); cbn [andb]; try discriminate; intros _; ring.
+Qed.
+
+Lemma internal_level_offset_l s z :
+  skip_first s = true -> skip_odd s = true -> internal_level s z = public_level s true z + 2.
+Proof. unfold internal_level, public_level. intros -> ->. cbn [andb]. ring. Qed.
+
+Lemma svc_bbox_spec s b : svc_bbox s = Some b -> b = grid_bbox (sg s) /\ internal_level s 0 < levels (sg s).
+Proof.
+  unfold svc_bbox, grid_bbox. destruct (internal_level s 0 <? levels (sg s)) eqn:E; [|discriminate].
+  intros H. inversion H. split; [reflexivity|lia].
+Qed.
+
+Example ex_internal_level :
+  internal_level (mkLayer w1_grid SrsMerc true true false 1 1 (0, 0, 141400, 141400) 10) 0 = 4 /\
+  public_level (mkLayer w1_grid SrsMerc true true false 1 1 (0, 0, 141400, 141400) 10) true 0 = 2 /\
+  svc_bbox (mkLayer w1_grid SrsMerc true true false 1 1 (0, 0, 141400, 141400) 10) = None /\
+  svc_bbox f8_layer = Some (0, 0, 10000, 7000).
+Proof. repeat split; vm_compute; reflexivity. Qed.
+
 (* ---- content of the served tile (composition with the meta tile model of C04, imported read-only) *)
 From MP Require Import MetaGrid MetaGrid_proofs.
 (* ---- content: the image stored for the tile of an address, cut out of its meta tile (MetaGrid.v: meta tile bbox,
